@@ -207,7 +207,7 @@ pub fn run(ctx: &mut Ctx) -> Result<(), Violation> {
     ctx.rule = "proptest cases (with shrinking): password 0..=128 bytes, t 1..=4, memlimit 8..=64 KiB incl. values that are not a multiple of 1024, producer in {dryoc crypto_pwhash_str, dryoc PwHash::hash(config with salt 8..=64, hash 16..=128).to_string(), libsodium crypto_pwhash_str (argon2id), libsodium crypto_pwhash_str_alg (argon2i), libsodium internal argon2{i,id}_hash_encoded (salt 8..=64, hash 16..=128)}, 1..4 needs-rehash queries each (equal costs, memlimit within the same KiB, t differs only, m differs only, one byte below the KiB, unrelated). Oracle: (a) strict harness parser decodes the string, fields equal the costs/lengths used, and Argon2 recomputed by the reference from exactly those fields equals the hash field; (b) libsodium crypto_pwhash_str_verify / argon2_verify accept the right password and reject wrong ones, dryoc crypto_pwhash_str_verify and PwHash::from_string(..).verify likewise; (c) from_string(s).to_string() == s; (d) needs_rehash == (ops != t or mem/1024 != m) == libsodium's answer. Non-trivial: string from libsodium, or Argon2i, or non-default salt/hash length, or a query where exactly one cost differs; distinct = hash(case).".into();
     ctx.assumptions = vec!["libsodium's encoder/verifier (public and internal) is the interop reference".into(), "cost parameters kept small (m <= 64 KiB, t <= 4)".into()];
     let seed = ctx.seed;
-    let n = ctx.tier.pick(8000u32, 80_000);
+    let n = ctx.tier.pick(8000u32, 400_000);
     let shards: Vec<u64> = (0..ctx.threads as u64).collect();
     let per = n / ctx.threads.max(1) as u32 + 1;
     ctx.par_each(&shards, |_, &sh, ev| {
